@@ -85,7 +85,7 @@ def run(name, old, new):
     out = r.stdout.strip().split('\n')
     head = out[0] if out else ''
     st = re.search(r'status=(\w+)', head)
-    labs = sorted(set(re.findall(r"C\d\d\.[A-Za-z0-9_.]+", '\n'.join(out[1:]))))
+    labs = sorted(set(l for m in re.findall(r"labels=\[([^\]]*)\]", '\n'.join(out[1:])) for l in re.findall(r"C\d\d\.[A-Za-z0-9_.]+", m)))
     kinds = sorted(set(re.findall(r'\[(\w[\w-]*)\]', '\n'.join(out[1:]))))
     tail = '' if st and st.group(1) != 'undecided' else head.split('wall=')[-1][:160]
     print(f'{name:75s} -> {st.group(1) if st else "?"} {labs if labs else ""} {kinds if kinds and not labs else ""} {tail}')
